@@ -1026,3 +1026,100 @@ def unit_contains_pop(timeout_ms=10000):
 
     return run_unit("series:BlockSeries.__contains__/pop", harness,
                     functions=[(MODULE, "BlockSeries.__contains__"), (MODULE, "BlockSeries.pop")], timeout_ms=timeout_ms)
+
+
+# ---- BlockSeries.__init__ ------------------------------------------------------------------------------
+
+def unit_series_init(timeout_ms=10000):
+    """BlockSeries.__init__: the state every other contract of the class starts from.
+      * `_data` is a NEW dictionary with exactly the entries of `data` (the caller's dictionary is neither kept nor written: caching into the series cannot change it - C10);
+        without `data` it is a new empty dictionary (not a shared default);
+      * `eval` is the caller's callback, or - without one - a function that answers the zero sentinel for every index of every length;
+      * shape and n_infinite are stored as given; dimension_names are the caller's if non-empty, else ('n_0', ..., 'n_{k-1}') with k = n_infinite;
+        the name is the caller's if non-empty, else 'Series_' + token_hex(4)."""
+    fn = frontend.find(MODULE, "BlockSeries.__init__")
+
+    class Me(Model):
+        def __init__(s):
+            s.attrs = {}
+
+        def m_setattr(s, eng, name, value):
+            s.attrs[name] = value
+
+        def m_getattr(s, eng, name):
+            if name in s.attrs:
+                return s.attrs[name]
+            raise Unsupported(f"self.{name} read before assignment")
+
+    def harness(eng):
+        copies = []
+
+        class Data(Model):
+            def m_getattr(s, e, name):
+                if name == "copy":
+                    def cp(e_):
+                        c = _Opaque("copy-of-data")
+                        copies.append(c)
+                        return c
+                    return Builtin("dict.copy", cp)
+                raise Unsupported(f"data.{name}")
+
+            def m_setitem(s, e, key, value):
+                raise Unsupported("store into the caller's dictionary")
+        tok = _Opaque("token_hex(4)")
+        hexcalls = []
+
+        def token_hex(e, n):
+            hexcalls.append(n)
+            return "TOKEN"
+        eng.globals.update({"zero": ZERO, "token_hex": Builtin("token_hex", token_hex)})
+        for with_data in (False, True):
+            for with_eval in (False, True):
+                for names_given in ("none", "empty", "given"):
+                    for name_given in ("none", "empty", "given"):
+                        me = Me()
+                        del copies[:]
+                        data = Data() if with_data else None
+                        ev = _Opaque("user-eval") if with_eval else None
+                        shape = _Opaque("shape")
+                        k = 3
+                        dn = {"none": None, "empty": STup([]), "given": STup(["x", "y", "z"])}[names_given]
+                        nm = {"none": None, "empty": "", "given": "H"}[name_given]
+                        eng.call(Closure(fn, Env(None, {}), "__init__"), [me], {"eval": ev, "data": data, "shape": shape, "n_infinite": k, "dimension_names": dn, "name": nm})
+                        a = me.attrs
+                        tag = f"[data={with_data},eval={with_eval},names={names_given},name={name_given}]"
+                        d = a.get("_data")
+                        if with_data:
+                            eng.oblige("init:_data-is-a-copy-of-the-caller's-dictionary" + tag, z3.BoolVal(len(copies) == 1 and d is copies[0]))
+                        else:
+                            eng.oblige("init:_data-is-a-new-empty-dictionary" + tag, z3.BoolVal(isinstance(d, dict) and not d))
+                        if with_eval:
+                            eng.oblige("init:eval-is-the-caller's-callback" + tag, z3.BoolVal(a.get("eval") is ev))
+                        else:
+                            f = a.get("eval")
+                            ok = isinstance(f, Closure)
+                            if ok:
+                                for nargs in (0, 1, 4):
+                                    try:
+                                        r = eng.call(f, [SI(eng.fresh("ix")) for _ in range(nargs)], {})
+                                    except Unsupported as u:
+                                        if "argument" not in str(u):
+                                            raise
+                                        r = None     # the default callback does not accept this number of index entries (a TypeError in Python)
+                                    ok = ok and r is ZERO
+                            eng.oblige("init:default-eval-answers-zero-for-every-index" + tag, z3.BoolVal(ok))
+                        eng.oblige("init:shape-and-n_infinite-stored-as-given" + tag, z3.BoolVal(a.get("shape") is shape and a.get("n_infinite") == k))
+                        got = a.get("dimension_names")
+                        if names_given == "given":
+                            eng.oblige("init:dimension_names-are-the-caller's" + tag, z3.BoolVal(got is dn))
+                        else:
+                            items = eng.as_seq(got).items if got is not None else None
+                            eng.oblige("init:default-dimension_names-are-n_0..n_{k-1}" + tag, z3.BoolVal(items == ["n_0", "n_1", "n_2"]), detail=f"{items}")
+                        gn = a.get("name")
+                        if name_given == "given":
+                            eng.oblige("init:name-is-the-caller's" + tag, z3.BoolVal(gn == "H"))
+                        else:
+                            eng.oblige("init:default-name-is-Series_+token_hex(4)" + tag, z3.BoolVal(gn == "Series_TOKEN" and hexcalls[-1:] == [4]), detail=f"{gn!r}")
+                        eng.oblige("init:sets-exactly-the-six-attributes" + tag, z3.BoolVal(sorted(a) == ["_data", "dimension_names", "eval", "n_infinite", "name", "shape"]), detail=f"{sorted(a)}")
+
+    return run_unit("series:BlockSeries.__init__", harness, functions=[(MODULE, "BlockSeries.__init__")], timeout_ms=timeout_ms)
